@@ -109,7 +109,7 @@ def check(rep, tier, seed):
     env = K.load()
     rngx = C.rng_for(seed, "C06s")
     sc = []
-    for fam, nv in (("H1v", 5), ("H2v", 5), ("HEv", 4), ("H3v", 3)):
+    for fam, nv in (("H1v", 5), ("H2v", 5), ("HEv", 4), ("H3v", 3), ("HUv", 3)):
         ids = [K.index_of(env, f"{fam}{i}") for i in range(nv)]
         for w in range(nv):
             for r in range(nv):
